@@ -367,6 +367,7 @@ pub fn gen_gas(rng: &mut Rng) -> VmCase {
         5 => CostSpec::Table(vec![1 << 62, 1, 1 << 62]),
         6 => CostSpec::Table(vec![u64::MAX, 1, 2]),
         7 => CostSpec::Const(u64::MAX / 2 + 1),
+        8 => CostSpec::ByOperand(2 + rng.below(9)),
         _ => CostSpec::Table((0..7).map(|_| 1 + rng.below(4)).collect()),
     };
     c.per_yield = *rng.pick(&[1u64, 4096, u64::MAX, 0]);
@@ -588,6 +589,33 @@ pub fn gen_total(rng: &mut Rng) -> (VmCase, usize) {
             ops.push(*rng.pick(&all));
         }
     }
+    // 1 in 12: a loop that drives one resource into its bound — frames opened by `Repeat`
+    // without ever being closed, words pushed, memory allocated, with a backward jump around it.
+    // Whatever the bound, the VM must stop with a typed error *at* it.
+    let bomb = rng.chance(1, 12);
+    if bomb {
+        ops.clear();
+        let body: Vec<Op> = match rng.below(5) {
+            0 => vec![PUSH(1 + rng.range(0, 2)), PUSH(rng.range(0, 1)), REP()],
+            1 => vec![PUSH(7), PUSH(7), PUSH(7)],
+            2 => vec![PUSH(*rng.pick(&[1, 7, 1000, 4096])), ALOC(), POP()],
+            3 => vec![PUSH(3), PUSH(1), REP(), PUSH(9)],
+            _ => vec![DUP(), DUP(), PUSH(2), ALOC()],
+        };
+        if rng.chance(1, 2) {
+            // an enclosing counting loop instead of a jump
+            ops.extend([PUSH(*rng.pick(&[4095, 4096, 4097, 5000, 12000])), PUSH(1), REP()]);
+            ops.extend(body.iter().copied());
+            ops.push(REPE());
+        } else {
+            ops.push(PUSH(5));
+            let start = ops.len();
+            ops.extend(body.iter().copied());
+            // jump back to `start` unconditionally
+            let dist = (ops.len() + 2 - start) as Word;
+            ops.extend([PUSH(-dist), PUSH(1), JMPIF()]);
+        }
+    }
     c.program = to_bytes(&ops);
     // initial state at and near the bounds
     let sl = match rng.below(8) {
@@ -642,7 +670,7 @@ pub fn gen_total(rng: &mut Rng) -> (VmCase, usize) {
         },
         _ => random_container(rng),
     };
-    c.shape = format!("total n={n} stack={sl} mem={ml}");
+    c.shape = format!("total n={n} stack={sl} mem={ml}{}", if bomb { " bomb" } else { "" });
     (c, 1 + rng.usize(3))
 }
 
